@@ -230,6 +230,9 @@ def instances(tier):
         out.append(("pca_counts", {"n0": 3, "d": 2, "centre": False, "incs": [2, 1, 1], "inplace": False}, big))
     out.append(("pca_model", {"n0": 3, "centre": True, "incs": [1]}))
     out.append(("pca_degenerate", {"n0": 3, "d": 2, "m": 1}))
+    # (eigenvalues / principal subspace after ipca: attempted as a one-step harness on menpo.math.ipca with d = 2
+    # through the 2x1 QR and 2x2 SVD contracts; z3 could not decide the feasibility of menpo's 1e-10 eigenvalue floor
+    # under those contracts within 10 minutes, so the clause stays uncovered -- see DESIGN.md)
     return out
 
 
